@@ -407,7 +407,59 @@ yaclib::Future<int> CoAwaitUnique(yaclib::Future<Payload> f) {
   co_return sum;
 }
 
+// A multi-Await whose objects are all pending when the awaiter registers (its constructor) and are all completed by another
+// thread BEFORE await_ready() is evaluated: await_ready() sees counter == 1, await_suspend() is not called, so the acquire of
+// that one load is the only thing ordering the producers' writes of the results before the coroutine's reads (C13, seeded
+// change 3).  The interleaving is forced through a RELAXED flag (no happens-before through the flag).
+template <bool Shared>
+yaclib::Future<int> CoAwaitMaterialised(std::atomic<int>& stage, yaclib::Future<Payload>& f1, yaclib::Future<Payload>& f2,
+                                        yaclib::SharedFuture<Payload> s1, yaclib::SharedFuture<Payload> s2) {
+  int sum = 0;
+  if constexpr (Shared) {
+    auto aw = Await(s1, s2);  // registration: both pending, counter == 3
+    stage.store(1, std::memory_order_relaxed);
+    while (stage.load(std::memory_order_relaxed) != 2) {}
+    co_await aw;  // await_ready: counter == 1 -> no suspension
+    for (int x : s1.Touch().Value()) sum += x;
+    for (int x : s2.Touch().Value()) sum += x;
+  } else {
+    auto aw = Await(f1, f2);
+    stage.store(1, std::memory_order_relaxed);
+    while (stage.load(std::memory_order_relaxed) != 2) {}
+    co_await aw;
+    for (int x : std::as_const(f1).Touch().Value()) sum += x;
+    for (int x : std::as_const(f2).Touch().Value()) sum += x;
+  }
+  co_return sum;
+}
+
+void CoAwaitMulti(int iters) {
+  for (int i = 0; i < iters; ++i) {
+    auto [f1, p1] = yaclib::MakeContract<Payload>();
+    auto [f2, p2] = yaclib::MakeContract<Payload>();
+    auto [s1, q1] = yaclib::MakeSharedContract<Payload>();
+    auto [s2, q2] = yaclib::MakeSharedContract<Payload>();
+    const bool shared = (i % 2) == 1;
+    std::atomic<int> stage{0};
+    std::thread producer{[&, p1 = std::move(p1), p2 = std::move(p2), q1 = std::move(q1), q2 = std::move(q2)]() mutable {
+      while (stage.load(std::memory_order_relaxed) != 1) {}
+      if (shared) {
+        std::move(q1).Set(Payload{1, 2, 3});
+        std::move(q2).Set(Payload{4, 5});
+      } else {
+        std::move(p1).Set(Payload{1, 2, 3});
+        std::move(p2).Set(Payload{4, 5});
+      }
+      stage.store(2, std::memory_order_relaxed);
+    }};
+    auto r = shared ? CoAwaitMaterialised<true>(stage, f1, f2, s1, s2) : CoAwaitMaterialised<false>(stage, f1, f2, s1, s2);
+    producer.join();
+    if (std::move(r).Get().Ok() != 15) std::abort();
+  }
+}
+
 void CoAwait(int iters) {
+  CoAwaitMulti(iters);
   yaclib::FairThreadPool tp1{2};
   yaclib::FairThreadPool tp2{2};
   for (int i = 0; i < iters; ++i) {
